@@ -278,6 +278,21 @@ class Check(CheckBase):
                 return b.concretize() if b is not None else None
             assert run_pinned(hb) == ref
             n += 1
+        # the symbolic regular-expression engine (used when code hands the symbolic string to re) against CPython's re
+        import re as real_re
+        from pysx.reshim import ReShim
+        rs = ReShim()
+        pats = [r"&(?!(?:amp|lt|gt|quot|apos);)", r"a+b", r"(a|b)*c", r"[0-9]+", r"\s*,\s*", r"[^<>&]", r"a*?b", r"(\d+)\.(\d+)", r"^ab", r"b$"]
+        for pat in pats:
+            for _ in range(12):
+                subj = "".join(rnd.choice("ab&;mplt gquos<>01,.c") for _ in range(rnd.randint(0, 7)))
+                want = real_re.sub(pat, "Z", subj)
+
+                def hr(run):
+                    g = rs.sub(pat, "Z", SymStr([z3.IntVal(ord(ch)) for ch in subj]))
+                    return g if isinstance(g, str) else g.concretize()
+                assert run_pinned(hr) == want, "regex engine disagrees with re on %r / %r" % (pat, subj)
+                n += 1
         for ms in [0, 1, 9999, 10000, 10499, 10501, 59499, 59501, 59999, 60000, 3599499, 3599501, 3600000, 86399999, 10 ** 10] + \
                 [rnd.randint(0, 10 ** 7) * 1000 + rnd.choice([0, 1, 250, 499, 501, 999]) for _ in range(30)]:
             exp = tu_n.format_hms(ms, True)
